@@ -61,7 +61,9 @@ Inductive ev :=
 | Flush (objs : list obj_st) (ents : list ent_ev) (assoc : list assoc_ev)
 | Commit
 | Rollback
-| ManualTx.                  (* uow.create_transaction(session) called by the application *)
+| ManualTx                   (* uow.create_transaction(session) called by the application *)
+| RawAssoc (a : assoc_ev).   (* Core INSERT/DELETE on an association table outside a flush
+                                (track_association_operations appends to pending_statements) *)
 
 (* ------------------------------------------------------------------ state *)
 Record arow := mka { a_tab : Z; a_key : list Z; a_tx : Z; a_op : Z }.
@@ -82,7 +84,9 @@ Record uow := mku {
   u_cur   : option Z;          (* current_transaction.id                   *)
   u_ops   : list oper;         (* Operations.objects (ordered)             *)
   u_vobjs : list (pk * Z);     (* keys of version_objs                      *)
-  u_pend  : list assoc_ev }.   (* pending_statements                        *)
+  u_pend  : list assoc_ev;     (* pending_statements                        *)
+  u_live  : bool }.            (* a UnitOfWork object exists for the connection (created by the first
+                                  before_flush / unit_of_work() call of the transaction)           *)
 
 Record state := mks {
   s_db : db;                   (* working copy inside the database transaction *)
@@ -90,7 +94,7 @@ Record state := mks {
   s_uow : uow;
   s_err : bool }.              (* the package itself raised (never expected)   *)
 
-Definition uow0 : uow := mku None [] [] [].
+Definition uow0 : uow := mku None [] [] [] false.
 Definition db0 : db := mkdb [] [] [] [] [].
 Definition state0 : state := mks db0 db0 uow0 false.
 
@@ -203,7 +207,7 @@ Definition create_transaction (s : state) : state :=
   let T := next_tx (d_tx (s_db s)) in
   let d := s_db s in
   mks (mkdb (d_live d) (d_vt d) (d_av d) (d_tx d ++ [T]) (d_chg d)) (s_committed s)
-      (mku (Some T) (u_ops (s_uow s)) (u_vobjs (s_uow s)) (u_pend (s_uow s))) (s_err s).
+      (mku (Some T) (u_ops (s_uow s)) (u_vobjs (s_uow s)) (u_pend (s_uow s)) true) (s_err s).
 
 Definition is_row (k : pk) (T : Z) (r : vrow) : bool := same_key k r && (vtx r =? T).
 
@@ -283,21 +287,21 @@ Definition flush (g : cfg) (s : state) (objs : list obj_st) (ents : list ent_ev)
   (* after_flush *)
   match u_cur u1 with
   | None => mks (mkdb live' (d_vt d1) (d_av d1) (d_tx d1) (d_chg d1)) (s_committed s1)
-                (mku None ops' (u_vobjs u1) pend') (s_err s1)
+                (mku None ops' (u_vobjs u1) pend' true) (s_err s1)
   | Some T =>
       let av' := fold_left (write_assoc T) pend' (d_av d1) in
       match ops' with
       | [] => mks (mkdb live' (d_vt d1) av' (d_tx d1) (d_chg d1)) (s_committed s1)
-                  (mku (Some T) [] (u_vobjs u1) []) (s_err s1)
+                  (mku (Some T) [] (u_vobjs u1) [] true) (s_err s1)
       | _ =>
           let chg' := if g_changes g then add_changes T (d_chg d1) ops' else d_chg d1 in
           if g_native g
           then mks (mkdb live' (d_vt d1) av' (d_tx d1) chg') (s_committed s1)
-                   (mku (Some T) ops' (u_vobjs u1) []) (s_err s1)
+                   (mku (Some T) ops' (u_vobjs u1) [] true) (s_err s1)
           else
           let '(vt', vobjs', err') := fold_left (process_op g T) ops' (d_vt d1, u_vobjs u1, s_err s1) in
           mks (mkdb live' vt' av' (d_tx d1) chg') (s_committed s1)
-              (mku (Some T) (map mark_proc ops') vobjs' []) err'
+              (mku (Some T) (map mark_proc ops') vobjs' [] true) err'
       end
   end.
 
@@ -307,6 +311,12 @@ Definition step (g : cfg) (s : state) (e : ev) : state :=
   | Commit => mks (s_db s) (s_db s) uow0 (s_err s)               (* after_commit -> clear      *)
   | Rollback => mks (s_committed s) (s_committed s) uow0 (s_err s) (* database + clear(_connection) *)
   | ManualTx => if g_versioning g then create_transaction s else s
+  | RawAssoc a =>
+      (* skipped when no unit of work exists for the connection (after the repair of finding 12) *)
+      if (g_versioning g || g_native g) && u_live (s_uow s)
+      then mks (s_db s) (s_committed s)
+               (mku (u_cur (s_uow s)) (u_ops (s_uow s)) (u_vobjs (s_uow s)) (u_pend (s_uow s) ++ [a]) true) (s_err s)
+      else s
   end.
 
 Definition run (g : cfg) (evs : list ev) : state := fold_left (step g) evs state0.
